@@ -323,11 +323,11 @@ def run_A(cf):
 
 def enc_cfg(cf):
     bs = _BASE_SPECS[cf["base"]]
-    return "(Cf Api%s %s %s %s %s %s %s %s %s %s %s %s %s %s %s (B %s %s %s %s %s))" % (
+    return "(Cf Api%s %s %s %s %s %s %s %s %s %s %s %s %s %s %s (B %s %s %s %s))" % (
         cf["api"], opt(cf["ad"], b), opt(cf["ax"], b), opt(cf["sl"], b), opt(cf["cmp"], b), opt(cf["eq"], b),
         _HARG[cf["hash"]], _HARG[cf["unsafe"]], opt(cf["frozen"], b), b(cf["ohash"]), b(cf["oeq"]), b(cf["one"]),
         b(cf["cache"]), opt(cf["init"], b), b(cf["oinit"]), b(bs[1]), b(bs[2]), bs[3],
-        b(cf["base"] in MUTINIT_BASES), b(_cslot(cf)))
+        b(cf["base"] in MUTINIT_BASES))
 
 
 def enc_seen_A(seen):
@@ -454,6 +454,7 @@ def gen_A(tier, rng):
 # Part B - hash values and caching
 
 LOG = []
+_LOGGING = [False]   # events are recorded only while a hash() call of a history is being observed
 
 
 class V:
@@ -471,7 +472,8 @@ class V:
         return not self.__eq__(other)
 
     def __hash__(self):
-        LOG.append(("h", self.t))
+        if _LOGGING[0]:
+            LOG.append(("h", self.t))
         return hash(self.v)
 
     def __repr__(self):
@@ -479,12 +481,14 @@ class V:
 
 
 def key0(a):
-    LOG.append(("k", a.t))
+    if _LOGGING[0]:
+        LOG.append(("k", a.t))
     return V(a.v % 2, a.t)
 
 
 def key1(a):
-    LOG.append(("k", a.t))
+    if _LOGGING[0]:
+        LOG.append(("k", a.t))
     return V(0, a.t)
 
 
@@ -522,16 +526,18 @@ def build_B(cd):
         if cd["api"] != "S":
             ns["__annotations__"] = ann
         c0 = type(name, (parent,), ns)
-        c = (attr.s if cd["api"] == "S" else attrs.define)(slots=cd["slots"], frozen=cd["frozen"], **kw)(c0)
+        c = (attr.s if cd["api"] == "S" else attrs.define)(frozen=cd["frozen"], **kw)(c0)
         setattr(mod, name, c)
         return c
 
     k = len(fields)
     parent = object
     if cd["split"] > 0:
+        # "mixed": a dict class below a SLOTTED base (only hash/evolve/assign/fresh histories: copying such
+        # hierarchies is C10's K4)
         parent = mk("P%d" % next(_serial), object, range(cd["split"]), unsafe_hash=True,
-                    cache_hash=cd["bcache"])
-    kw = {"cache_hash": cd["cache"]}
+                    cache_hash=cd["bcache"], slots=cd["slots"] or bool(cd.get("mixed")))
+    kw = {"cache_hash": cd["cache"], "slots": cd["slots"]}
     if cd["explicit"] or not cd["frozen"]:
         kw["unsafe_hash"] = True
     return mk("Q%d" % next(_serial), parent, range(cd["split"], k), **kw)
@@ -588,8 +594,13 @@ def run_H(cd, start, ops):
         try:
             if o[0] == "hash":
                 LOG.clear()
-                r = hash(cur)
+                _LOGGING[0] = True
+                try:
+                    r = hash(cur)
+                finally:
+                    _LOGGING[0] = False
                 ev = list(LOG)
+                LOG.clear()
                 seen.append(["val", lab(r), sorted(t for k, t in ev if k == "h"),
                              sorted(t for k, t in ev if k == "k")])
                 continue
@@ -695,9 +706,11 @@ def _class_descs(tier, rng):
 
     def desc(fields, cache, frozen, slots, split=None, api=None):
         k = len(fields)
-        return dict(api=api or rng.choice("SD"), fields=[list(f) for f in fields], cache=cache, frozen=frozen,
-                    slots=slots, split=rng.randint(0, k) if split is None else split,
-                    bcache=rng.random() < 0.5, explicit=rng.random() < 0.5)
+        d = dict(api=api or rng.choice("SD"), fields=[list(f) for f in fields], cache=cache, frozen=frozen,
+                 slots=slots, split=rng.randint(0, k) if split is None else split,
+                 bcache=rng.random() < 0.5, explicit=rng.random() < 0.5)
+        d["mixed"] = bool(d["split"] > 0 and not slots and rng.random() < 0.3)
+        return d
 
     for f in FIELD_CFGS:
         for ca, fz, sl in flags:
@@ -730,9 +743,13 @@ def gen_B(tier, rng):
         start = [rng.randrange(3) for _ in range(k)]
         fixed = _fixed_histories(cd, start, rng)
         picks = fixed if (tier == "thorough" and k <= 2 and rng.random() < 0.25) else rng.sample(fixed, 2)
+        rnd = _random_history(k, rng)
+        if cd["mixed"]:
+            picks = [[o for o in ops if o[0] not in ("copy", "deep", "pickle")] for ops in picks]
+            rnd = [o for o in rnd if o[0] not in ("copy", "deep", "pickle")] or [("hash",)]
         for ops in picks:
             cases.append(mk_H(cd, start, ops))
-        cases.append(mk_H(cd, start, _random_history(k, rng)))
+        cases.append(mk_H(cd, start, rnd))
     return cases
 
 
